@@ -3,6 +3,31 @@ import json, os, shutil, subprocess, tempfile
 from .. import common
 
 
+def monitor_worker(args, scratch):
+    """runs the engine's monitor layer inside the sandbox (private /var/log: the aggregate status file has a fixed location)"""
+    res = {"evaluations": 0, "nontrivial": [], "samples": [], "counts": {}, "violations": []}
+    out = os.path.join(scratch, "monitor.json")
+    logdir = os.path.join(scratch, "log")
+    os.makedirs(logdir, exist_ok=True)
+    q = subprocess.run([args["exe"]], env=dict(os.environ, C20_MODE="monitor", C20_OUT=out, C20_LOGDIR=logdir), stdout=subprocess.PIPE, stderr=subprocess.STDOUT, timeout=2400, cwd=scratch)
+    if q.returncode != 0 or not os.path.exists(out):
+        if b"panicked" in q.stdout:
+            res["violations"].append(["panic-in-extension-code", {"output": q.stdout.decode(errors="replace")[-1500:]}])
+            res["evaluations"] = 1
+            return res
+        res["inconclusive"] = ["c20 monitor layer failed: " + q.stdout.decode(errors="replace")[-800:]]
+        return res
+    m = json.load(open(out))
+    res["evaluations"] = m["monitor"]["events"]
+    res["counts"] = {"monitor_layer": m["monitor"]}
+    res["nontrivial"] = ["c20-monitor-%d" % i for i in range(m["distinct_nontrivial"])]
+    for v in m["violations"]:
+        res["violations"].append([v["signature"], v])
+    if m["monitor"]["event_queue_push_failures"]:
+        res["inconclusive"] = ["event queue overflowed in the monitor layer (%d pushes failed): notification texts not observable" % m["monitor"]["event_queue_push_failures"]]
+    return res
+
+
 def run(tier, rep):
     exe = os.path.join(common.RUST_TARGET, "release", "c20_engine")
     env = dict(common.CARGO_ENV, CARGO_TARGET_DIR=common.RUST_TARGET)
@@ -36,9 +61,17 @@ def run(tier, rep):
                             "failures and never directly after a success; one success leaves Error; two consecutive successes give Success); a reference automaton is compared for information. notifications: every "
                             "sequence over 3 keys x 3 values up to length 4 and runs of 1..1000 identical notifications through the real write_state_event (the crate's own MAX_STATE_COUNT), emission read back from the "
                             "log: emitted on first/changed value, and never twice within 120 repetitions of an unchanged value. non-trivial = sequence reaching Error or crossing 19/20/21 trailing failures, or a "
-                            "notification run >= 120; distinct by content hash") % res["exhaustive_depth"]
+                            "notification run >= 120; distinct by content hash. monitor layer (sandboxed, aggregate status file at its production path): the real report_proxy_agent_aggregate_status / "
+                            "extension_substatus / report_proxy_agent_service_status over every sequence of length <= 4 of {poll ok, poll missing, poll corrupt, poll version-mismatch, update ok, update failed, update "
+                            "not launched}, failure runs of 17..23 mixed failures, and runs up to 300 polls; judged on the status written to the <seq>.status file (same hysteresis predicates) and on the notifications "
+                            "found in the log, classified by subject (file readable / version matches): emitted on change, never twice within 120 repetitions") % res["exhaustive_depth"]
     for v in res["violations"]:
         rep.violation(v["signature"], v)
+    from .. import sandbox
+    mres = sandbox.run("vf.props.c20", "monitor_worker", {"exe": exe, "tier": tier}, timeout=3000)
+    ev0 = rep.coverage["evaluations"]
+    rep.merge_worker(mres)
+    rep.coverage["evaluations"] = ev0 + mres.get("evaluations", 0)
     if tier == "thorough":
         from .. import miri
         mr = common.rng("c20-miri")
